@@ -42,6 +42,9 @@ def make(rd, tier, seed, ev):
         named.append((n, t))
         expected[n] = ok
     gen = plancheck.write_problems(rd, named)
+    fgen, fexp = plancheck.feature_problems(rd, ['tp', 'inheritance'], seed, tier)
+    gen += fgen
+    expected.update({k: v for k, v in fexp.items() if v})
     ev.sample({'generated_problem': gen[0][0], 'text': open(gen[0][1][0]).read(), 'has_solution': expected[gen[0][0]]})
     ev.cov['problems_with_known_solution'] = sum(1 for v in expected.values() if v)
     return plancheck.remember(gen), {k: v for k, v in expected.items()}
@@ -87,7 +90,7 @@ def run(tier, seed):
                  'seeded constraint-only programs (2 booleans, 2 reals, 2-4 statements: literals, |, ^, six linear relations, '
                  'two-way disjunctions), each rendered in three equivalent formulations (renamed identifiers, permuted '
                  'statements, added tautologies); PlanGen.tla on every small StateVariable / ReusableResource scheduling '
-                 'problem (sampled); and families built around a known solution (temporal patterns, recursive / unifying rules). '
+                 'problem (sampled); and families built around a known solution (temporal patterns, recursive / unifying rules, time-point programs with a planted witness read at once / inside a rule / incrementally, inheritance chains). '
                  'A problem that has a solution must not be answered unsolvable / inconsistent, and the members of an '
                  'equivalence class must get the same verdict, in every configuration; distinct_nontrivial = (configuration, '
                  'problem) pairs with a known solution that were run to a verdict',
